@@ -51,7 +51,7 @@ class BaseFuelBurnModel(ABC):
         # backwards means last element stays and the rest get adjusted by
         # addition instead of subtraction
         cumulative_integral = cumulative_trapezoid(
-            1 / specific_ground_range_corrected[::-1], dx=segment_distance
+            1 / specific_ground_range_corrected[::-1], dx=np.flip(segment_distance)
         )[::-1]
         mass[:-1] = mass[-1] + cumulative_integral
         return mass
